@@ -39,7 +39,7 @@ def real_desc(real):
                 struct=real.struct, scaled=real.scaled)
 
 
-def spec_to_code(chk, cfgs, make_reals, relax=(), neg_cfgs=None, tag='', check_optimum=True, simulate_neg=None):
+def spec_to_code(chk, cfgs, make_reals, relax=(), neg_cfgs=None, tag='', check_optimum=True, simulate_neg=None, sel_hook=None):
     """TLC enumerates `cfgs` strictly (all invariants), and `neg_cfgs` (default: none) with the guards in `relax`
     relaxed; every behaviour is replayed into every realisation."""
     pos = P.enumerate_family(cfgs, name='MCpos')
@@ -60,6 +60,8 @@ def spec_to_code(chk, cfgs, make_reals, relax=(), neg_cfgs=None, tag='', check_o
         sel = dict(check='replay_' + kind, family=tag, fault=(beh or {}).get('fault', ''))
         sel.update(cfg_features(cfg))
         sel.update(calendar=real.calendar, mtu=real.mtu, route='mono')
+        if sel_hook:
+            sel_hook(sel, cfg)
         if kind == 'setup_raises':
             sel['error'] = why.split(':')[0]
         chk.violation(sel, why, dict(cfg=cfg, realisation=real_desc(real), behaviour=beh))
@@ -78,7 +80,7 @@ def spec_to_code(chk, cfgs, make_reals, relax=(), neg_cfgs=None, tag='', check_o
 
 
 def code_to_spec(chk, cfgs, make_reals, tag='', solvers=('SCIPY', None), split=None, chk_fields=('level', 'chdis'),
-                 expect_feasible=None, corrupt=True, K=1000, tol=3):
+                 expect_feasible=None, corrupt=True, K=1000, tol=3, sel_hook=None):
     """run the real pipeline for every cfg x realisation x solver, validate the recorded traces with TLC"""
     traces, meta = [], []
     for cfg in cfgs:
@@ -93,6 +95,8 @@ def code_to_spec(chk, cfgs, make_reals, tag='', solvers=('SCIPY', None), split=N
                 sel = dict(check='trace', family=tag, solver=str(solver), calendar=real.calendar, mtu=real.mtu,
                            route=('split:' + (cfg.get('interval', '?') if split == 'cfg' else split)) if split else 'mono')
                 sel.update(cfg_features(cfg))
+                if sel_hook:
+                    sel_hook(sel, cfg)
                 try:
                     op, res, out = REC.run_pipeline(real, solver=solver, split=split)
                 except MachineryError:
